@@ -68,7 +68,7 @@ def run_family(rep, tier, replay, prop, mix, probes, quick, thorough, by_kinds=F
             if p.ambiguous:
                 raise vlib.ToolError(f"{p.key}: {p.ambiguous} (pc, TICK) pairs are not unique; stops cannot be identified")
             cands = pick_cands(p, cfg["ncands"], rng)
-            r = sc.model_check(p, cands, min(cfg["maxcmd"], 6), cfg["maxbps"])
+            r = sc.model_check(p, set(sorted(cands)[:4]), min(cfg["maxcmd"], 5), min(cfg["maxbps"], 2))   # exhaustive leg: small bounds
             states += r.distinct
             trans += r.generated
             if prop == "C03" and b == builds[0]:
